@@ -271,6 +271,8 @@ class Exec:
             return fm.const(v)
         if fm.is_float(v):
             return v
+        if type(v).__name__ == "NaNV":
+            return fm.ufn("NaN", 0)() if False else z3.Const("NaN", fm.sort)
         if z3.is_expr(v) and v.sort() == z3.IntSort():
             return fm.from_int(v)
         if z3.is_expr(v) and v.sort() == z3.BoolSort():
@@ -689,6 +691,8 @@ class Exec:
         g = self.ctx.contract.globals_.get(node.id) if self.ctx.contract else None
         if g is not None:
             return g
+        if self.spec_mode and node.id == "NaN":
+            return z3.Const("NaN", self.fm.sort)
         r = self.resolve_global(node.id)
         if r is not None:
             return r
@@ -1089,6 +1093,8 @@ class Exec:
                 cur = self.read(st, base, idx, s)
                 v = self.eval(s.value, st)
                 nv = self.binop(s.op, cur, v, st, s)
+                if self.ctx.options.get("accum_obligations") and isinstance(s.op, ast.Add):
+                    self.accum_obligation(st, base, cur, v, s)
                 saved = self.ctx.options.get("index_obligations", True)
                 self.ctx.options["index_obligations"] = False
                 try:
@@ -1097,6 +1103,20 @@ class Exec:
                     self.ctx.options["index_obligations"] = saved
                 return [(st, Outcome(NORMAL))]
         raise Unsupported("augmented assignment target")
+
+    def accum_obligation(self, st, base, cur, v, node):
+        """Accumulating with += into a float array: a counter is exact only below 2^24 (f4) / 2^53 (f8);
+        a running sum meets one ulp of the output only when it is kept in float64 (a-priori bound
+        (N-1)*u*sum|x|, stated assumption)."""
+        dt = base.root().dtype
+        if dt not in ("f4", "f8"):
+            return
+        exact = 2 ** 24 if dt == "f4" else 2 ** 53
+        if isinstance(v, int) and not isinstance(v, bool):
+            if self.fm.name in ("R", "M"):
+                self.emit(st, "accum", self.node_name(node, "counter"), cur + v <= exact, self.where(node))
+        else:
+            self.emit(st, "accum", self.node_name(node, "sum"), z3.BoolVal(dt == "f8"), self.where(node))
 
     def s_If(self, s, st):
         c = self.truthy(self.eval(s.test, st))
